@@ -468,9 +468,15 @@ struct Gen {
 		// the chain of orderAfter dependencies carries the domains of all earlier ports' inputs
 		int od = -2;
 		if (order) { if (memOrderLabels.size() == 1 && *memOrderLabels.begin() != UNK) od = *memOrderLabels.begin(); else if (!memOrderLabels.empty()) od = -3; }
+		bool isRead = rng.chance(1, 2);
+		// Memory detection drops the order dependency between two read ports before the CDC check runs, so a read port that sits in
+		// another domain than the ports before it is a crossing only on the raw graph: keep ordered read ports disciplined.
+		unsigned savePct = wildPct; bool saveNow = wildNow;
+		if (isRead && order && od >= 0) { wildPct = 0; wildNow = false; }
 		GSig &addr = (od >= 0) ? pickCompat(od) : pickSig();
-		if (rng.chance(1, 2)) { // read port: address, orderAfter
+		if (isRead) { // read port: address, orderAfter
 			size_t c = pickClockFor(join(domainOf(addr), od));
+			wildPct = savePct; wildNow = saveNow;
 			meet({ &addr.labels, order ? &memOrderLabels : &none }, clocks[c].ps);
 			std::set<int> l = addr.labels; if (order) l.insert(memOrderLabels.begin(), memOrderLabels.end());
 			ClockScope cs(clocks[c].clk);
